@@ -36,7 +36,7 @@ theorem any_ge_false (conv : List Nat) (h : ∀ v ∈ conv, v < 32) : conv.any (
     have := h v (by simp)
     simp; omega
 
-theorem decode_encode_lower (hrp d : Bytes) (hv : PrintableHrp hrp) :
+theorem decode_encode_lower' (hrp d : Bytes) (hv : PrintableHrp hrp) :
     ∃ s, encode hrp d = .ok s ∧ decode s = .ok (lowerAll hrp, d) := by
   obtain ⟨conv, hc1, hc2, hc3⟩ := convert_roundtrip (d.map UInt8.toNat) (by
     intro x hx
@@ -111,9 +111,9 @@ theorem decode_encode_lower (hrp d : Bytes) (hv : PrintableHrp hrp) :
   simp only
   rw [map_ofNat_toNat]
 
-theorem decode_encode (hrp d : Bytes) (hv : ValidHrp hrp) :
+theorem decode_encode' (hrp d : Bytes) (hv : ValidHrp hrp) :
     ∃ s, encode hrp d = .ok s ∧ decode s = .ok (hrp, d) := by
-  have h := decode_encode_lower hrp d ⟨hv.1, fun c hc => (hv.2 c hc).1⟩
+  have h := decode_encode_lower' hrp d ⟨hv.1, fun c hc => (hv.2 c hc).1⟩
   rw [lowerAll_eq_self hrp (fun c hc => (hv.2 c hc).2)] at h
   exact h
 
